@@ -267,6 +267,7 @@ pub fn plan_sig(plan: &Plan) -> u64 {
             CmdKind::Execute { block, .. } => (8 + ((block.bind.is_some() as u64) << 8), block.values.len()),
             CmdKind::LongData { data, .. } => (9, data.len()),
             CmdKind::Raw(b) => (10, b.len()),
+            CmdKind::Unsupported(b) => (11, b.len()),
         };
         parts.push(k | (size_class(sz) as u64) << 12 | (c.seq as u64) << 20);
         parts.push(act_sig(&c.act));
@@ -950,6 +951,7 @@ fn candidates(plan: &Plan, skip: usize, cap: usize) -> Vec<Plan> {
         // payload shrinking
         let blob = match &cmd.kind {
             CmdKind::Query(b) | CmdKind::Prepare(b) | CmdKind::InitDb(b) | CmdKind::FieldList(b) | CmdKind::Raw(b) => Some(b),
+            CmdKind::Unsupported(_) => None,
             CmdKind::LongData { data, .. } => Some(data),
             _ => None,
         };
